@@ -713,11 +713,34 @@ def r7_threshold_and_filter_setters(ctx, facts):
         if nc and any(is_call(x, r"std::vector<.*>::c?end$") for x in walk(c)):
             found.append((bid, "T" if nc[0] == "!=" else "F"))   # label of 'found'
     if not found and not lam:
-        raise AnalysisBroken("Sink::add_filter: the duplicate-name test has a shape no accepted idiom covers (no find_if + end() comparison): not decided")
-    refuse = bool(found) and bool(thr) and not g.exists_path([g.entry_node], thr, avoid_edges=found) and \
-        all(not g.exists_path([y for (y, l2) in g.succ.get(tnode(g, b), ()) if l2 == lab], [g.exit_node], avoid_nodes=thr) for (b, lab) in found)
-    ctx.ob("C16.R7b", "Sink::add_filter:refuses-duplicate-name-only", same_name and refuse,
-           "the search compares filter names for equality (%s) and the call throws exactly on the 'found' outcome (%s)" % (same_name, refuse), fn=f)
+        # the search written as a loop: range-for over the sink's filter list whose body tests 'same name' (equality of two
+        # get_filter_name() results, one of them the visited filter's) and throws on that outcome
+        loops = [n for n in f.walk() if n["k"] == "CXXForRangeStmt" and is_this_field(strip(n.get("range")), "_global_filters")]
+        if len(loops) == 1:
+            lv = loops[0]["loopvar"]["did"]
+            for bid, b in g.blocks.items():
+                c = g.term_cond(bid)
+                if c is None or not in_subtree(c, loops[0].get("body") or {}):
+                    continue
+                nc = eq_kind(c)
+                names = [x for x in walk(c) if is_call(x, r"Filter::get_filter_name$")]
+                if nc and len(names) == 2 and any(y["k"] == "DeclRefExpr" and y.get("did") == lv for x in names for y in walk(x)) and \
+                        not all(any(y["k"] == "DeclRefExpr" and y.get("did") == lv for y in walk(x)) for x in names):
+                    same_name = True
+                    found.append((bid, "T" if nc[0] == "==" else "F"))
+        if not found:
+            raise AnalysisBroken("Sink::add_filter: the duplicate-name test has a shape no accepted idiom covers (no find_if + end() comparison, no loop over the filters): not decided")
+        # in the loop form 'not found' is the loop running out: the exit is reached from the loop without a throw only when no test matched
+        refuse = bool(thr) and not g.exists_path([g.entry_node], thr, avoid_edges=found) and \
+            all(not g.exists_path([y for (y, l2) in g.succ.get(tnode(g, b), ()) if l2 == lab], [g.exit_node], avoid_nodes=thr) for (b, lab) in found)
+        ctx.ob("C16.R7b", "Sink::add_filter:refuses-duplicate-name-only", same_name and refuse,
+               "the search compares filter names for equality (%s) and the call throws exactly on the 'found' outcome (%s)" % (same_name, refuse), fn=f)
+        found = None
+    if found is not None:
+        refuse = bool(found) and bool(thr) and not g.exists_path([g.entry_node], thr, avoid_edges=found) and \
+            all(not g.exists_path([y for (y, l2) in g.succ.get(tnode(g, b), ()) if l2 == lab], [g.exit_node], avoid_nodes=thr) for (b, lab) in found)
+        ctx.ob("C16.R7b", "Sink::add_filter:refuses-duplicate-name-only", same_name and refuse,
+               "the search compares filter names for equality (%s) and the call throws exactly on the 'found' outcome (%s)" % (same_name, refuse), fn=f)
     # apply_all_filters: reload exactly when the flag is set; an empty list accepts
     a = facts.need("quill::Sink::apply_all_filters", "A")[0]
     g = a.g
